@@ -152,6 +152,25 @@ type judge struct {
 	leaf   *x509.Certificate // the leaf of the first handshake (its key type decides what restricted clients can be expected to do)
 	capRot int               // where this run starts in the list of curl restrictions (caps.go)
 	capK   int               // which start / run of the case this is (rotation of the slow client profiles, caps.go)
+	keyCap int               // when > 0: at most so many violations of one key are listed by this judge (runs with hundreds of one-liners)
+	perKey map[string]int
+}
+
+// over reports whether this judge has listed enough violations of that key
+// already (the further ones are counted only).
+func (j *judge) over(key string) bool {
+	if j.keyCap <= 0 {
+		return false
+	}
+	if j.perKey == nil {
+		j.perKey = map[string]int{}
+	}
+	j.perKey[key]++
+	if j.perKey[key] > j.keyCap {
+		j.r.Count("further_violations_of_a_key_already_listed_for_the_case", 1)
+		return true
+	}
+	return false
 }
 
 const classChanged = "cache-changed-under-listener"
@@ -185,11 +204,16 @@ func (j *judge) fp(site, fp, where string) bool {
 	}
 	if !validPin(fp) {
 		ok = false
+	}
+	if !validPin(fp) && !j.over("fp-not-base64-sha256") {
 		j.r.Violate(j.eng, j.idx, "fp-not-base64-sha256", fmt.Sprintf("%s shows a fingerprint %q that is not standard base64 of 32 bytes: %q", site, fp, where), j.witness(map[string]any{"site": site, "shown": where}))
 	}
 	for _, p := range j.served {
 		if fp != p {
 			ok = false
+			if j.over("advertised-fp-differs-from-served:" + cls) {
+				break
+			}
 			j.r.Violate(j.eng, j.idx, "advertised-fp-differs-from-served:"+cls, fmt.Sprintf("%s advertises sha256//%s but the listener presents a key whose pin is %s: %q", site, fp, p, where), j.witness(map[string]any{"site": site, "advertised": fp, "shown": where}))
 			break
 		}
@@ -277,6 +301,7 @@ func (j *judge) ports(ols []oneLiner, pr portRule) {
 					j.r.Count("oneliners_with_user_port_other_than_443_on_443_listener", 1)
 				}
 			}
+		case strict && j.over("oneliner-user-port-not-kept"):
 		case strict:
 			var want []string
 			for u := range ups {
@@ -293,6 +318,9 @@ func (j *judge) ports(ols []oneLiner, pr portRule) {
 				}
 			}
 		default:
+			if j.over("oneliner-port-not-bound-port") {
+				continue
+			}
 			j.r.Violate(j.eng, j.idx, "oneliner-port-not-bound-port", fmt.Sprintf("%s names %s (port %s) but the listener is bound to port %s and the user gave no port for that address: %q", ol.Site, ol.Addr, shown, pr.bound, ol.Text), j.witness(map[string]any{"oneliner": ol, "bound_port": pr.bound}))
 		}
 	}
@@ -1876,7 +1904,7 @@ func raceCaseRun(r *mon.Run, fx fixtures, i int) {
 // ---- Run ----------------------------------------------------------------------------------------
 
 func Run(r *mon.Run) {
-	r.Rule = "engine binary: the real -race binary on a pty, configurations drawn from listen form {127.0.0.1:0, 127.0.0.1, [::1]:0, ::1, 0.0.0.0:0, :0, [::]:0, fixed free port v4/v6} (stratified over the index) x -callback-address {none, host, host:port, several} x -serve-files-from {off, dir, file} x -ipv6-one-liners x template {default, custom with two uses of .PubkeyFP} x certificate cache {off, fresh file, file of an earlier run, 2-4 restarts on one file, default path under a private HOME}; for every run the bound port is read from the child's listening socket (/proc/<pid>/fd inode in /proc/<pid>/net/tcp{,6}), the served leaf is taken from TLS handshakes (with and without SNI, on every printed address that is an address of the listener) and hk.Pin computed by the harness; every sha256//... text on the terminal (file one-liners, shell one-liners, the help re-printed after a fake shell died) and in 2-3 /c bodies (Host, c2 query, c2 header, HTTP/1.0+SNI variants) must equal it and be std-base64 of 32 bytes; every printed one-liner must name the bound port (a one-liner without a port names 443) or a port the user gave for that host, and a host the user gave only WITH a port (not an address of this machine) must keep exactly that port; real /usr/bin/curl is run with each printed command verbatim (must exit 0; 200 for /c) and with one bit of the pin flipped (must exit 90), directly when the printed address belongs to the listener, else with --connect-to; restarts on one cache must serve and advertise one pin; in about half of the runs one printed shell one-liner that names an address of the listener is run verbatim under /bin/sh (real curl fetches /c, the script's two curl commands carry a real shell, 'exit' ends it) and the help printed afterwards is judged too. engine inproc: hsrv.New in-process, same text/handshake/script/port/restart oracles without curl. THE CACHE CHANGES UNDER A RUNNING LISTENER (every inproc case with a cache file, in one start of its restart sequence drawn per case; every binary case with a cache file, in its last run): after the start-up checks the cache file is replaced through sstls.SaveCertificate by a harness-made currently-valid certificate with another key, then fresh handshakes without SNI (every address) and with SNI (two names), /c fetched plainly and as HTTP/1.0 on an SNI connection (binary: also real curl run as printed on a one-liner that names a host, i.e. with SNI): every fingerprint the process has shown so far and embeds now must equal the pin of every key presented now (key class cache-changed-under-listener); the starts after the replacement must serve and advertise the replaced cache's key. engine inproc-race: two servers started at the same moment (one gate) on one cache path that does not exist yet, up to 5 attempts until they really made different keys; each one's fingerprints must be the pin of what IT presents without and with SNI. PORT 443 (engines inproc-443 and binary-443; the harness is root): the listener is bound to 127.0.0.1:443 | 127.0.0.2:443 | 127.0.0.3:443 | [::1]:443 (first one free, rotation by index; one such listener at a time per run, other processes' use = next candidate / bounded wait, none available = counted + inconclusive note) x callback addresses with explicit ports 8888/8443/444/443 and without, bare IPv6 literals and internationalised names typed in UTF-8 with a non-ASCII last label (fixed list, in turn; one-liners for non-ASCII names are judged as text, not run with curl) x files x cache (with the cache change); same oracles. CACHES THE PROGRAM DID NOT WRITE ITSELF (engines inproc-chain: 2-4 starts per case, and binary-chain: 2-3 runs of the real binary per case with the real-curl checks, explicit cache path and default path under a private HOME): before the first start the harness writes the cache archive itself: cert section = a CA hierarchy made with crypto/x509, LEAF FIRST then its issuers (1, 2 or 3 certificates, stratified over the index), key section = the leaf's key; key types of leaf (stratified) and issuers (drawn) from ECDSA P-256 / RSA 2048 / Ed25519 / ECDSA P-384; between the PEM blocks nothing | blank lines | the text openssl s_client -showcerts prints | openssl pkcs12 bag attributes | CRLF line ends; private key as PKCS#8 or as EC/RSA PRIVATE KEY; archive laid out cert-key | key-cert | with a comment and other sections around; during one start (inproc) / under the last run (binary) the cache is replaced by another such chain, which the later starts load. A start-up error on such a file is counted and not judged (the program need not take it), which key of the file the program uses is counted and not judged (C08); every start that comes up is judged with the same oracles as everywhere: every advertised fingerprint equals the pin of the first certificate the listener presents in handshakes, real curl run as printed connects and with one bit of the pin flipped exits 90, restarts on the unchanged cache serve and advertise one pin. CLIENT TLS CAPABILITIES (every start of every engine, right after the first handshakes; caps.go): the handshake is repeated by crypto/tls clients restricted in what they offer: CurvePreferences {P-256} | {P-384} | {P-521} | {X25519} | {P-256,P-384,P-521}, MaxVersion TLS 1.2, MinVersion TLS 1.3, version x curve combinations, one single TLS 1.2 cipher suite (ECDHE-ECDSA-... for ECDSA/Ed25519 keys, ECDHE-RSA-... for RSA keys; AES128-GCM-SHA256 | AES256-GCM-SHA384 | CHACHA20-POLY1305) alone and with one curve; 19 profiles, every listener gets the 13 cheap ones and one of the 6 whose only group is P-384 or P-521 (in turn over index+start), with and without SNI in turn; the leaf presented to such a client joins the served pins every advertised fingerprint is compared with; a handshake that fails is a violation (key restricted-client-cannot-connect:<profile>) when three attempts in a row were refused by the TLS peer (no connect failure, no deadline), a client with Go's defaults connects to the same address at that moment, and the same restricted client was taken by a plain listener of the harness (tls.Listen with nothing but a self-signed certificate of the same key type as the served leaf; started and probed once per key type met). Real curl (engines binary, binary-443, binary-chain): every printed one-liner that connected as printed and was refused with the altered pin is run again with two of 17 restrictions (in turn over case, run and position): --curves prime256v1 | secp384r1 | secp521r1 | X25519 | prime256v1:secp384r1:secp521r1, --tls-max 1.2, --tlsv1.3, --tls-max 1.2 --ciphers <one of the three suites>, --tlsv1.3 --tls13-ciphers <one of the three TLS 1.3 suites>, version x curve and suite x curve combinations; with the advertised pin it must exit 0 (a TLS-level exit code is violation curl-advertised-pin-rejected:<restriction>), and for the first of the two with one bit of the pin flipped it must exit 90; a restriction is only used for a key type when this machine's curl, so restricted, connected with the right pin to the harness's plain listener of that key type and exited 90 there with the altered pin, else it is counted as not explored (client_caps_curl_option_not_usable_here / _not_explored) and never judged. distinct = configuration signature + served pin; all non-trivial (each has at least one advertised fingerprint compared with a handshake)"
+	r.Rule = "engine binary: the real -race binary on a pty, configurations drawn from listen form {127.0.0.1:0, 127.0.0.1, [::1]:0, ::1, 0.0.0.0:0, :0, [::]:0, fixed free port v4/v6} (stratified over the index) x -callback-address {none, host, host:port, several} x -serve-files-from {off, dir, file} x -ipv6-one-liners x template {default, custom with two uses of .PubkeyFP} x certificate cache {off, fresh file, file of an earlier run, 2-4 restarts on one file, default path under a private HOME}; for every run the bound port is read from the child's listening socket (/proc/<pid>/fd inode in /proc/<pid>/net/tcp{,6}), the served leaf is taken from TLS handshakes (with and without SNI, on every printed address that is an address of the listener) and hk.Pin computed by the harness; every sha256//... text on the terminal (file one-liners, shell one-liners, the help re-printed after a fake shell died) and in 2-3 /c bodies (Host, c2 query, c2 header, HTTP/1.0+SNI variants) must equal it and be std-base64 of 32 bytes; every printed one-liner must name the bound port (a one-liner without a port names 443) or a port the user gave for that host, and a host the user gave only WITH a port (not an address of this machine) must keep exactly that port; real /usr/bin/curl is run with each printed command verbatim (must exit 0; 200 for /c) and with one bit of the pin flipped (must exit 90), directly when the printed address belongs to the listener, else with --connect-to; restarts on one cache must serve and advertise one pin; in about half of the runs one printed shell one-liner that names an address of the listener is run verbatim under /bin/sh (real curl fetches /c, the script's two curl commands carry a real shell, 'exit' ends it) and the help printed afterwards is judged too. engine inproc: hsrv.New in-process, same text/handshake/script/port/restart oracles without curl. THE CACHE CHANGES UNDER A RUNNING LISTENER (every inproc case with a cache file, in one start of its restart sequence drawn per case; every binary case with a cache file, in its last run): after the start-up checks the cache file is replaced through sstls.SaveCertificate by a harness-made currently-valid certificate with another key, then fresh handshakes without SNI (every address) and with SNI (two names), /c fetched plainly and as HTTP/1.0 on an SNI connection (binary: also real curl run as printed on a one-liner that names a host, i.e. with SNI): every fingerprint the process has shown so far and embeds now must equal the pin of every key presented now (key class cache-changed-under-listener); the starts after the replacement must serve and advertise the replaced cache's key. engine inproc-race: two servers started at the same moment (one gate) on one cache path that does not exist yet, up to 5 attempts until they really made different keys; each one's fingerprints must be the pin of what IT presents without and with SNI. PORT 443 (engines inproc-443 and binary-443; the harness is root): the listener is bound to 127.0.0.1:443 | 127.0.0.2:443 | 127.0.0.3:443 | [::1]:443 (first one free, rotation by index; one such listener at a time per run, other processes' use = next candidate / bounded wait, none available = counted + inconclusive note) x callback addresses with explicit ports 8888/8443/444/443 and without, bare IPv6 literals and internationalised names typed in UTF-8 with a non-ASCII last label (fixed list, in turn; one-liners for non-ASCII names are judged as text, not run with curl) x files x cache (with the cache change); same oracles. CACHES THE PROGRAM DID NOT WRITE ITSELF (engines inproc-chain: 2-4 starts per case, and binary-chain: 2-3 runs of the real binary per case with the real-curl checks, explicit cache path and default path under a private HOME): before the first start the harness writes the cache archive itself: cert section = a CA hierarchy made with crypto/x509, LEAF FIRST then its issuers (1, 2 or 3 certificates, stratified over the index), key section = the leaf's key; key types of leaf (stratified) and issuers (drawn) from ECDSA P-256 / RSA 2048 / Ed25519 / ECDSA P-384; between the PEM blocks nothing | blank lines | the text openssl s_client -showcerts prints | openssl pkcs12 bag attributes | CRLF line ends; private key as PKCS#8 or as EC/RSA PRIVATE KEY; archive laid out cert-key | key-cert | with a comment and other sections around; during one start (inproc) / under the last run (binary) the cache is replaced by another such chain, which the later starts load. A start-up error on such a file is counted and not judged (the program need not take it), which key of the file the program uses is counted and not judged (C08); every start that comes up is judged with the same oracles as everywhere: every advertised fingerprint equals the pin of the first certificate the listener presents in handshakes, real curl run as printed connects and with one bit of the pin flipped exits 90, restarts on the unchanged cache serve and advertise one pin. CLIENT TLS CAPABILITIES (every start of every engine, right after the first handshakes; caps.go): the handshake is repeated by crypto/tls clients restricted in what they offer: CurvePreferences {P-256} | {P-384} | {P-521} | {X25519} | {P-256,P-384,P-521}, MaxVersion TLS 1.2, MinVersion TLS 1.3, version x curve combinations, one single TLS 1.2 cipher suite (ECDHE-ECDSA-... for ECDSA/Ed25519 keys, ECDHE-RSA-... for RSA keys; AES128-GCM-SHA256 | AES256-GCM-SHA384 | CHACHA20-POLY1305) alone and with one curve; 19 profiles, every listener gets the 13 cheap ones and one of the 6 whose only group is P-384 or P-521 (in turn over index+start), with and without SNI in turn; the leaf presented to such a client joins the served pins every advertised fingerprint is compared with; a handshake that fails is a violation (key restricted-client-cannot-connect:<profile>) when three attempts in a row were refused by the TLS peer (no connect failure, no deadline), a client with Go's defaults connects to the same address at that moment, and the same restricted client was taken by a plain listener of the harness (tls.Listen with nothing but a self-signed certificate of the same key type as the served leaf; started and probed once per key type met). Real curl (engines binary, binary-443, binary-chain): every printed one-liner that connected as printed and was refused with the altered pin is run again with two of 17 restrictions (in turn over case, run and position): --curves prime256v1 | secp384r1 | secp521r1 | X25519 | prime256v1:secp384r1:secp521r1, --tls-max 1.2, --tlsv1.3, --tls-max 1.2 --ciphers <one of the three suites>, --tlsv1.3 --tls13-ciphers <one of the three TLS 1.3 suites>, version x curve and suite x curve combinations; with the advertised pin it must exit 0 (a TLS-level exit code is violation curl-advertised-pin-rejected:<restriction>), and for the first of the two with one bit of the pin flipped it must exit 90; a restriction is only used for a key type when this machine's curl, so restricted, connected with the right pin to the harness's plain listener of that key type and exited 90 there with the altered pin, else it is counted as not explored (client_caps_curl_option_not_usable_here / _not_explored) and never judged. MANY ADDRESSES x THE PROGRAM'S OTHER OPTIONS (many.go; engines binary-many: the real binary on a pty, and inproc-many: hsrv.New in-process; a handful of cases each, run next to the other engines): 17 ... 200 -callback-address values per run (bands 17-19 | 150-200 | 20-30 | 80-149 | 31-50 | 51-79 in turn over the index, exactly 17 and exactly 200 once per twelve cases) of ten kinds in turn - short names, names with a port, IPv4 without and with a port, bare IPv6 literals, bracketed IPv6 literals with a port, long names (64-200 characters, labels up to 63) without and with a port, mixed-case names, 10.x addresses - x listen form {127.0.0.1:0, 0.0.0.0:0, [::1]:0, [::]:0, 127.0.0.1, :0} x -ipv6-one-liners x -serve-files-from {directory, single file, off} x certificate cache {off, explicit file, default path}; binary-many also x the other documented options in a fixed matrix of 16 cells by index (none; -one-shell, -no-timestamps, -log, -ctrl-i <file>, -callback-template <custom> each alone; every pair of them; quick runs the first six cells, which use every option), the log file given by -log or by CURLREVSHELL_LOG, every flag spelled -flag value | -flag=value | --flag value | --flag=value in turn, the flags in a drawn order. The end of the start-up text and of the help re-printed after a fake shell died is found without a clock: the help is sent before the listener serves, so the harness fetches /c under a host name of its own and takes everything before the notice about that request (inproc-many: a marker line through the operator channel). Oracles: every sha256//... shown is the served pin (as everywhere), the port rule (as everywhere), and COMPLETENESS per block (start-up shell block, file block when files are served, re-printed block): for every address the user gave, for the listen address or - on a wildcard listener - for every address of this machine's non-loopback interfaces that was there before the start and still is (IPv6 ones only with -ipv6-one-liners) there must be a one-liner that is whole: the served pin, that host with the user's port or else the bound port, and for shell one-liners the end '/c | /bin/sh' (key oneliner-missing:<site>); real curl (advertised pin connects, altered pin exits 90, two client restrictions) on the first, the last, a drawn one and the listener's own shell one-liner and on one file one-liner (hosts of up to 100 characters); the script fetched for the marker is judged like every script; with -one-shell nothing is re-printed (the listener is closed) and whatever the program prints until it ends must carry no other fingerprint. distinct = configuration signature + served pin; all non-trivial (each has at least one advertised fingerprint compared with a handshake)"
 	r.Assumptions = []string{
 		"callback host names (cb.example ...) do not resolve here: their one-liners are exercised with curl --connect-to, which checks the same pin against the same listener",
 		"link-local IPv6 one-liners carry no zone and cannot be connected to directly; same treatment",
@@ -1887,10 +1915,13 @@ func Run(r *mon.Run) {
 		"a certificate cache whose cert section holds the leaf followed by its issuers (a 'fullchain' as a CA hands it out), with any of the key types crypto/tls serves, with text between the PEM blocks that PEM readers skip, is a legitimate cache: the statement quantifies over every cached key pair and does not say who wrote the cache; whether the program accepts such a file is not judged, only what it advertises once it listens",
 		"port 443 on the loopback addresses is free or only briefly taken by other runs of this check; if it cannot be bound at all the port-443 floors make the run inconclusive",
 		"'curl --pinnedpubkey with the advertised value connects' is said of curl as the targets have it, not of one build: a client that offers less than a current curl/OpenSSL or Go does (only NIST curves, only TLS 1.2 or only TLS 1.3, a single AEAD cipher suite) must still connect with the advertised pin, as far as crypto/tls itself serves such a client: what crypto/tls serves is measured on a plain tls.Listen of the harness with the same key type, never assumed (TLS 1.0/1.1, non-ECDHE and CBC suites are not tried at all)",
+		"a -callback-address is documented as 'Additional callback address or domain, for one-liner printing (may be repeated)': each one given is owed a one-liner in every block of one-liners the program prints (shell, files, re-printed), however many there are; the statement's 'every fingerprint the program shows' includes one that is shown cut short; which addresses a wildcard listener is owed one-liners for is taken from this machine's interfaces (non-loopback, present before and after the run), as README/doc describe; -one-shell, -no-timestamps, -log, -ctrl-i and -callback-template do not change what one-liners are owed at start-up (with -one-shell none is owed after the shell, the listener being closed)",
 		"which restrictions this machine's curl/OpenSSL can be given is measured on the same plain listener; an option it cannot do (or that cannot work with the served key type, like a TLS 1.2 client whose only group is not the curve of the ECDSA certificate) is not explored and reported so (coverage keys client_caps_curl_options_not_explored_on_this_machine, client_caps_*_not_usable_here)",
 	}
 	fx := makeFixtures(r.Work)
 	defer caps.close()
+	// many addresses x the program's other options: few, cheap cases next to the other engines
+	many := runMany(r, fx)
 
 	if r.WantEngine(engBin) {
 		bin, err := crs.Build(r.Work, "")
@@ -1967,12 +1998,15 @@ func Run(r *mon.Run) {
 		})
 	}
 
+	many.Wait()
+
 	q := func(a, b int64) int64 {
 		if r.Thorough() {
 			return b
 		}
 		return a
 	}
+	manyFloors(r, q)
 	r.Floor("binary_runs", q(16, 200))
 	r.Floor("runs_with_a_callback_address_before_the_listen_address", q(5, 60))
 	r.Floor("inproc_servers", q(60, 500))
